@@ -290,6 +290,7 @@ class W09:
         sc = self.scanners[sid]
         data = self.corpus[i]
         scope = scope_files(spec.get("scope", "nokw"))
+        KERNEL.begin_run(sched.Policy(), scope_files("engine"))
         try:
             with watchdog(OP_LIMIT):
                 t, n = sched.count_steps(scope, lambda: sc.scan(data, d), limit=SEQ_STEP_LIMIT * 8, exc=kernel.StepLimitExceeded)
@@ -351,18 +352,26 @@ class W09:
         est = 0
         counts = {} if spec.get("policy") == "sw" else None
         for (i, d), fn in zip(jobs, fns):
+            # dry run through the kernel with a policy that never pre-empts: counts the steps of
+            # every task the job involves (threads the code under test starts included)
+            KERNEL.begin_run(sched.Policy(), scope, hang_limit=SEQ_STEP_LIMIT * (1 if spec.get("scope", "engine") == "engine" else 8),
+                             lib_scope=scope)
+            KERNEL.site_counts = counts
             try:
                 with watchdog(OP_LIMIT * 2):
-                    t, n = sched.count_steps(scope, fn, counts, limit=SEQ_STEP_LIMIT * (1 if spec.get("scope", "engine") == "engine" else 8),
-                                             exc=kernel.StepLimitExceeded)
+                    dt = KERNEL.run_tasks([fn], real_timeout=PAR_LIMIT)[0]
             except HangDetected:
                 raise Harness(f"stall: dry run of input {i} exceeded {OP_LIMIT * 2}s of wall time")
-            except kernel.StepLimitExceeded as e:
+            finally:
+                KERNEL.site_counts = None
+            if KERNEL.hung:
+                raise Harness(f"stall: dry run of input {i} never gave the baton back")
+            if isinstance(dt.error, kernel.StepLimitExceeded):
                 self.aborted = True
-                self.record(self.tkey(cfgk, i, d), e, task="dry")
+                self.record(self.tkey(cfgk, i, d), dt.error, task="dry")
                 return
-            est += n
-            self.record(self.tkey(cfgk, i, d), t, task="dry")
+            est += KERNEL.n
+            self.record(self.tkey(cfgk, i, d), dt.error if dt.error is not None else dt.result, task="dry")
         policy = sched.make_policy(spec, len(fns) + 1, est, counts)
         s = KERNEL
         # every schedule executes the same work as the dry run (est steps) plus a little; anything
